@@ -781,7 +781,7 @@ def estimate_band_connection(prev_eigvecs, eigvecs, prev_band_order):
     metric = np.abs(np.dot(prev_eigvecs.conjugate().T, eigvecs))
     connection_order = []
     for overlaps in metric:
-        maxval = 0
+        maxval = -1.0  # overlaps are >= 0; a free band is always found
         for i in reversed(range(len(metric))):
             val = overlaps[i]
             if i in connection_order:
